@@ -5,7 +5,7 @@ import (
 	"fmt"
 	"os"
 
-	_ "harness/checks"
+	"harness/checks"
 	"harness/core"
 )
 
@@ -17,6 +17,8 @@ func main() {
 	switch os.Args[1] {
 	case "child":
 		os.Exit(core.ChildMain(os.Args[2:]))
+	case "faultchild":
+		os.Exit(checks.FaultChildMain(os.Args[2:]))
 	case "run":
 		if len(os.Args) < 4 {
 			fmt.Fprintln(os.Stderr, "usage: vcheck run <ID> <tier> [--replay file]")
